@@ -62,6 +62,10 @@ def x86(*names):
         full.append('core::core_arch::x86::sse2::' + n)
         full.append('core::core_arch::x86::fma::' + n)
         full.append('core::core_arch::x86::sse41::' + n)
+        full.append('core::core_arch::x86::sse3::' + n)
+        full.append('core::core_arch::x86::ssse3::' + n)
+        full.append('core::core_arch::x86::avx::' + n)
+        full.append('core::core_arch::x86::avx2::' + n)
         full.append('core::arch::x86::' + n)
     return leaf(*full)
 
@@ -158,6 +162,102 @@ def _shuffle_ps(I, fr, callee, args, dest, argops, line):
     m = cg(callee)
     a, b = lanes(I, args[0], 4, 4), lanes(I, args[1], 4, 4)
     return vec([a[m & 3], a[(m >> 2) & 3], b[(m >> 4) & 3], b[(m >> 6) & 3]], 4)
+
+
+# negated comparisons (true also on unordered operands)
+_lanewise2('_mm_cmpnlt_ps', lambda x, y: tm.mask(tm.b_not(tm.f2('flt', x, y)), 4))
+_lanewise2('_mm_cmpnle_ps', lambda x, y: tm.mask(tm.b_not(tm.f2('fle', x, y)), 4))
+_lanewise2('_mm_cmpngt_ps', lambda x, y: tm.mask(tm.b_not(tm.f2('fgt', x, y)), 4))
+_lanewise2('_mm_cmpnge_ps', lambda x, y: tm.mask(tm.b_not(tm.f2('fge', x, y)), 4))
+
+
+# SSE3 / SSE4.1 / AVX (128-bit) / FMA routing and arithmetic that a target_feature fast path may use
+@x86('_mm_blend_ps')
+def _blend_ps(I, fr, callee, args, dest, argops, line):
+    m = cg(callee)
+    a, b = lanes(I, args[0], 4, 4), lanes(I, args[1], 4, 4)
+    return vec([b[i] if (m >> i) & 1 else a[i] for i in range(4)], 4)
+
+
+@x86('_mm_blendv_ps')
+def _blendv_ps(I, fr, callee, args, dest, argops, line):
+    a, b, m = lanes(I, args[0], 4, 4), lanes(I, args[1], 4, 4), lanes(I, args[2], 4, 4)
+    return vec([ite(tm.signbit(mm), y, x) for x, y, mm in zip(a, b, m)], 4)
+
+
+@x86('_mm_permute_ps')
+def _permute_ps(I, fr, callee, args, dest, argops, line):
+    m = cg(callee)
+    a = lanes(I, args[0], 4, 4)
+    return vec([a[m & 3], a[(m >> 2) & 3], a[(m >> 4) & 3], a[(m >> 6) & 3]], 4)
+
+
+@x86('_mm_movehdup_ps')
+def _movehdup(I, fr, callee, args, dest, argops, line):
+    a = lanes(I, args[0], 4, 4)
+    return vec([a[1], a[1], a[3], a[3]], 4)
+
+
+@x86('_mm_moveldup_ps')
+def _moveldup(I, fr, callee, args, dest, argops, line):
+    a = lanes(I, args[0], 4, 4)
+    return vec([a[0], a[0], a[2], a[2]], 4)
+
+
+@x86('_mm_hadd_ps')
+def _hadd_ps(I, fr, callee, args, dest, argops, line):
+    a, b = lanes(I, args[0], 4, 4), lanes(I, args[1], 4, 4)
+    return vec([tm.f2('fadd', a[0], a[1]), tm.f2('fadd', a[2], a[3]), tm.f2('fadd', b[0], b[1]), tm.f2('fadd', b[2], b[3])], 4)
+
+
+@x86('_mm_hsub_ps')
+def _hsub_ps(I, fr, callee, args, dest, argops, line):
+    a, b = lanes(I, args[0], 4, 4), lanes(I, args[1], 4, 4)
+    return vec([tm.f2('fsub', a[0], a[1]), tm.f2('fsub', a[2], a[3]), tm.f2('fsub', b[0], b[1]), tm.f2('fsub', b[2], b[3])], 4)
+
+
+@x86('_mm_addsub_ps')
+def _addsub_ps(I, fr, callee, args, dest, argops, line):
+    a, b = lanes(I, args[0], 4, 4), lanes(I, args[1], 4, 4)
+    return vec([tm.f2('fsub', a[0], b[0]), tm.f2('fadd', a[1], b[1]), tm.f2('fsub', a[2], b[2]), tm.f2('fadd', a[3], b[3])], 4)
+
+
+@x86('_mm_dp_ps')
+def _dp_ps(I, fr, callee, args, dest, argops, line):
+    m = cg(callee)
+    a, b = lanes(I, args[0], 4, 4), lanes(I, args[1], 4, 4)
+    zero = tm.fconst(0.0, 4)
+    p = [tm.f2('fmul', a[i], b[i]) if (m >> (4 + i)) & 1 else zero for i in range(4)]
+    sm = tm.f2('fadd', tm.f2('fadd', p[0], p[1]), tm.f2('fadd', p[2], p[3]))     # DPPS: (p0 + p1) + (p2 + p3)
+    return vec([sm if (m >> i) & 1 else zero for i in range(4)], 4)
+
+
+@x86('_mm_insert_ps')
+def _insert_ps(I, fr, callee, args, dest, argops, line):
+    m = cg(callee)
+    a, b = lanes(I, args[0], 4, 4), lanes(I, args[1], 4, 4)
+    out = list(a)
+    out[(m >> 4) & 3] = b[(m >> 6) & 3]
+    zero = tm.fconst(0.0, 4)
+    return vec([zero if (m >> i) & 1 else out[i] for i in range(4)], 4)
+
+
+@x86('_mm_fmsub_ps')
+def _fmsub_ps(I, fr, callee, args, dest, argops, line):
+    a, b, c = [lanes(I, v, 4, 4) for v in args]
+    return vec([tm.fma(x, y, tm.f1('fneg', z)) for x, y, z in zip(a, b, c)], 4)
+
+
+@x86('_mm_fnmadd_ps')
+def _fnmadd_ps(I, fr, callee, args, dest, argops, line):
+    a, b, c = [lanes(I, v, 4, 4) for v in args]
+    return vec([tm.fma(tm.f1('fneg', x), y, z) for x, y, z in zip(a, b, c)], 4)
+
+
+@x86('_mm_fnmsub_ps')
+def _fnmsub_ps(I, fr, callee, args, dest, argops, line):
+    a, b, c = [lanes(I, v, 4, 4) for v in args]
+    return vec([tm.fma(tm.f1('fneg', x), y, tm.f1('fneg', z)) for x, y, z in zip(a, b, c)], 4)
 
 
 @x86('_mm_movehl_ps')
